@@ -400,14 +400,56 @@ func CorpusGenerics(seed int64, tier string) []*Case {
 			meth("Twice", ps(par("m", Map(Named(0, "U"), NamedG(0, "G", Named(1, "T"))))), ps(par("", NamedG(0, "G", NamedG(0, "G", last))))),
 			meth("Zed", ps(par("other", Named(2, "T"))), nil), // the other package called knum, met last
 		}}
+		// a second, plain interface that brings in the other package called knum: when
+		// it is processed AFTER the generic one, the generic mock's imports get re-aliased
+		// (variants below use the generic interface WITHOUT its own mention of that package)
+		it2 := it
+		it2.Name = x.name + "NoZed"
+		it2.Methods = nil
+		for _, m := range it.Methods {
+			if m.Name != "Zed" {
+				it2.Methods = append(it2.Methods, m)
+			}
+		}
+		later := Iface{Name: "Later", OneFile: true, Aliases: []map[int]string{{}}, Methods: []Method{meth("Ring", ps(par("other", Named(2, "T"))), ps(par("", Named(2, "U"))))}}
 		src := newSrc("gsrc", pkgs, it)
+		// its own package: no file there gives the second knum a source alias
+		uses2 := false
+		for _, tp := range x.tps {
+			if strings.HasSuffix(tp.Constraint, ":2") {
+				uses2 = true
+			}
+		}
+		if !uses2 {
+			it2.Aliases = []map[int]string{{}}
+		}
+		srcL := newSrc("gsrcl", pkgs, it2, later)
 		k := 4
 		if tier == "thorough" {
 			k = 16
 		}
+		judge := []string{"C01", "C02", "C08", "C09", "C10", "C11", "C19"}
 		for _, cfg := range rotate(i+int(seed), k) {
 			cfg.Args = []string{it.Name}
-			cases = append(cases, &Case{Origin: "generics:" + x.name, Src: src, Cfg: cfg, Judge: []string{"C01", "C02", "C08", "C09", "C10", "C11", "C19"}})
+			cases = append(cases, &Case{Origin: "generics:" + x.name, Src: src, Cfg: cfg, Judge: judge})
+		}
+		for j, cfg := range rotate(i+int(seed)+1, 2) {
+			if cfg.Dest == "explicitSame" {
+				cfg.Dest = "implicit"
+			}
+			cfg.Args = []string{it2.Name, "Later"}
+			if j == 1 {
+				cfg.Args = []string{"Later", it2.Name}
+			}
+			cases = append(cases, &Case{Origin: "generics:" + x.name + "+Later", Src: srcL, Cfg: cfg, Judge: judge})
+		}
+		// the source package itself called like the constraint's package, mock elsewhere
+		if strings.HasPrefix(x.tps[0].Constraint, "pkg") || strings.HasPrefix(x.tps[len(x.tps)-1].Constraint, "pkg") {
+			src2 := newSrc("knum", pkgs, it2, later)
+			for _, cfg := range []Cfg{{Dest: "other"}, {Dest: "srcTest", WithResets: true}} {
+				cfg.Args = []string{it2.Name}
+				cases = append(cases, &Case{Origin: "generics:" + x.name + ":srcnamed-knum", Src: src2, Cfg: cfg, Judge: judge})
+			}
 		}
 	}
 	return cases
